@@ -40,6 +40,28 @@ def c11_ints(ctx):
     return sorted(s)
 
 
+def replay_ladder_histories(ctx, props):
+    """S2C: TLC-generated toggle/encode histories replayed in ONE interpreter (the switch is real global state,
+    so are any caches a change might add)"""
+    import json
+    path = ctx.gen.get('ladder_hist')
+    if not path:
+        return
+    rec = ctx.rec
+    for i, line in enumerate(open(path)):
+        if not mine(ctx, i):
+            continue
+        for step in json.loads(line)['hist']:
+            if step['a'] == 'toggle':
+                rec.add('Toggle', props, nt=True, **actions.toggle(step['arg']))
+            else:
+                x = int.from_bytes(bytes(step['mag']), 'big') * (-1 if step['neg'] else 1)
+                shape = (i + x) % 3
+                v = x if shape == 0 else ([x, {'k': x}] if shape == 1 else {'a': [x]})
+                rec.add('EncodeValue', props, nt=True, **actions.encode_value(v, 'top'))
+    rec.add('Toggle', props, **actions.toggle('false'))
+
+
 FIXED = ['short_int', 'short_uint', 'long_int', 'long_uint', 'long_long_int']
 
 
@@ -65,6 +87,7 @@ def drive_c11(ctx):
             x = rng.choice(probes)
             rec.add('EncodeValue', P, nt=True, **actions.encode_value(rng.choice([x, [x], {'k': x}]), 'top'))
     rec.add('Toggle', P, **actions.toggle('false'))
+    replay_ladder_histories(ctx, P)
     # fixed-width encoders refuse out-of-range with TypeError
     vals = [x for x in gen.boundary_ints(2)] + [rng.randint(-(1 << 65), 1 << 65) for _ in range(100)]
     for i, x in enumerate(vals):
@@ -141,6 +164,14 @@ def method_roundtrips(ctx, props, per_class):
 @driver('C01')
 def drive_c01(ctx):
     method_roundtrips(ctx, ['C01'], 6 if ctx.quick else 120)
+    # frames around and beyond the 128 KiB mark (long strings and tables "up to their length limits")
+    from pamqp import commands
+    big = [131056, 131057, 200000] if ctx.quick else [131055, 131056, 131057, 131072, 200000, 300001]
+    for i, n in enumerate(big):
+        if mine(ctx, i):
+            ctx.rec.add('RoundTrip', ['C01'], nt=True, **actions.roundtrip(commands.Connection.Secure(challenge='c' * n), 1))
+            ctx.rec.add('RoundTrip', ['C01'], nt=True, **actions.roundtrip(
+                commands.Queue.Declare(queue='q', arguments={'blob': 'é' * (n // 2), 'n': 5}), 65535))
     # every channel on a rotating class (thorough), boundary channels (quick)
     rng = ctx.rng
     chans = framegen.CHANNELS if ctx.quick else range(ctx.shard, 65536, ctx.nshards)
@@ -985,10 +1016,10 @@ def drive_c12(ctx):
             c = rng.random()
             base[k] = rng.randint(-300, 70000) if c < 0.5 else ({kk: rng.randint(0, 9) for kk in rng.sample(ORDER_KEYS, 3)} if c < 0.8
                                                                 else [{kk: 1 for kk in rng.sample(ORDER_KEYS, 3)}, 5])
+        others = [shuffled(rng, base) for _ in range(3)]     # built BEFORE anything is encoded
         a = actions.encode_value(base, 'table')
         rec.add('EncodeValue', P, nt=True, **a)
-        for _ in range(3):
-            other = shuffled(rng, base)
+        for other in others:
             b = actions.encode_value(other, 'table')
             rec.add('EncodeValue', P, nt=True, **b)
             rec.add('SameBytes', P, nt=True, in1=a['in'], in2=b['in'], out1=a['out'], out2=b['out'])
@@ -1078,5 +1109,6 @@ def drive_c16(ctx):
     rng = ctx.rng
     for _ in range(12 if ctx.quick else 250):
         heapdrv.run_session(ctx.rec, rng, ['C16'], rng.choice([8, 14, 25]))
+    replay_ladder_histories(ctx, ['C16'])
     scheds = ctx.gen.get('schedules')
     threads.run(ctx, ['C16'], scheds, 6 if ctx.quick else 120)
